@@ -193,7 +193,7 @@ def run(ctx, chk):
     for pid, rules in IMPORTS.items():
         mod = importlib.import_module('cbv.rules.%s' % pid)
         sub = type(chk)('C01', LEVEL, chk.tier)
-        mod.run(ctx, sub)
+        getattr(mod, 'run_rules', mod.run)(ctx, sub)
         n = 0
         for o in sub.obs:
             if o['rule'] in rules and o['nontrivial']:
